@@ -907,18 +907,19 @@ fn c10(cfg: &CCfg, e: &Exec, f: &Facts, vs: &mut Vec<Violation>, nt: &mut bool) 
     }
     // the peer ended the read side and the dispatch has not even looked (an idle connection,
     // nothing in flight): it must stop all the same
-    if let (Some(sidx), Some((q1idx, q))) = (&f.eof_sent, &f.q1) {
+    // (judged at the first quiescent point: also the one reached while the peer is not reading what
+    // the client wrote - the dispatch stops "promptly", it does not wait for a flush to go through)
+    for (sidx, (q1idx, q)) in f.eof_sent.iter().flat_map(|s| f.q0.iter().chain(f.q1.iter()).map(move |q| (s, q))) {
         let not_before_q1 = |x: Option<usize>| x.map(|i| i > *q1idx).unwrap_or(true);
         if sidx < q1idx
             && q[1] != 0
-            && not_before_q1(f.eof_read)
             && not_before_q1(f.dispatch_done.as_ref().map(|d| d.0))
             && not_before_q1(f.dispatch_dropped)
             && f.panics.is_empty()
             && !f.spin
         {
             *nt = true;
-            v(vs, "C10-eof-not-prompt", cfg, "the peer closed the read side, nothing is woken, the clock has not moved, and the dispatch is still running (it has not looked at the read side since)".into());
+            v(vs, "C10-eof-not-prompt", cfg, format!("the peer closed the read side, nothing is woken, the clock has not moved, and the dispatch is still running ({})", if not_before_q1(f.eof_read) { "it has not looked at the read side since" } else { "it has read the end-of-stream and is waiting for something else" }));
         }
     }
     match (&f.eof_read, &f.dispatch_done, &f.dispatch_dropped) {
@@ -1153,6 +1154,19 @@ pub fn c14(
                     format!("{who}: the transport said not-ready and was retried >1000 times inside one poll instead of returning to the executor"),
                 ));
                 return;
+            }
+            Rec::S("horizon", _) => {
+                // "... they return control to the executor and wait to be woken": a task that wakes
+                // itself every time the transport says not-ready is retrying through the executor,
+                // for as long as the peer leaves the transport full
+                let pend = recs.iter().filter(|r| matches!(r, Rec::T { side: s, op: Op::Ready, res: Res::Pending, .. } if *s == side)).count();
+                if pend > 100 {
+                    vs.push(mk(
+                        "C14-iv-spin-through-executor",
+                        format!("{owner:?}: the transport said not-ready {pend} times and the task was runnable again every time without the transport having woken it: it never waits"),
+                    ));
+                    return;
+                }
             }
             Rec::S("panic", p) => {
                 vs.push(mk("C14-panic", format!("panic: {p}")));
@@ -1444,6 +1458,21 @@ pub fn configs(prop: CProp, tier: Tier) -> Vec<CCfg> {
                         CallerCfg { deadline_ms: 10_000, ..CallerCfg::simple(third_answered) },
                     ];
                     out.push(base(callers, 2, 1, fl, cap, A_ABANDON | A_ADVANCE | A_DRAIN));
+                }
+            }
+            // at the in-flight limit (2) with an old call outstanding: a late reply for an abandoned call
+            // and the reply that frees a slot are read in one poll of the dispatch - the queued call
+            // goes out in that poll (seeded change C02k did not run a pump again within one poll once
+            // it had returned Pending)
+            for (fl, cap) in [(Flavour::Always, 1usize), (Flavour::Coupled, 1)] {
+                for buf in [1usize, 2] {
+                    let callers = vec![
+                        CallerCfg { deadline_ms: 10_000, ..CallerCfg::simple(false) },
+                        CallerCfg { script: Script::AbandonOnceSent, deadline_ms: 20_000, ..CallerCfg::simple(false) },
+                        CallerCfg { deadline_ms: 20_000, ..CallerCfg::simple(true) },
+                        CallerCfg { deadline_ms: 20_000, ..CallerCfg::simple(true) },
+                    ];
+                    out.push(base(callers, 2, buf, fl, cap, A_REPLY_UNOWED | A_DRAIN));
                 }
             }
             // the transport refuses one request (the one fault that does not end the connection): that
